@@ -261,41 +261,6 @@ func decide(cfg solveCfg, v *Verdict) {
 	if cfg.arming && strings.Contains(v.Name, "/sweep/") {
 		a, t, el := runSolver("z3-new", v.File, cfg.quickT)
 		record(a, "z3-new", el, t)
-	} else if cfg.tier == "thorough" && !expectSat {
-		// all three solvers: at least one unsat and no sat
-		type r struct {
-			ans, solver, text string
-			secs              float64
-		}
-		ch := make(chan r, 3)
-		for _, s := range []string{"z3-new", "z3", "cvc5"} {
-			go func(s string) {
-				a, t, el := runSolver(s, v.File, cfg.slowT)
-				ch <- r{a, s, t, el}
-			}(s)
-		}
-		var unsat, sat *r
-		var all []string
-		for i := 0; i < 3; i++ {
-			x := <-ch
-			all = append(all, fmt.Sprintf("%s=%s(%.2fs)", x.solver, x.ans, x.secs))
-			xx := x
-			if x.ans == "unsat" && (unsat == nil || x.secs < unsat.secs) {
-				unsat = &xx
-			}
-			if x.ans == "sat" && sat == nil {
-				sat = &xx
-			}
-		}
-		v.Detail = strings.Join(all, " ")
-		switch {
-		case sat != nil:
-			record("sat", sat.solver, sat.secs, sat.text)
-		case unsat != nil:
-			record("unsat", unsat.solver, unsat.secs, "")
-		default:
-			record("unknown", "all", float64(cfg.slowT), "")
-		}
 	} else {
 		var a, t, sname string
 		var el float64
@@ -325,6 +290,30 @@ func decide(cfg solveCfg, v *Verdict) {
 				}
 			}
 		}
+	}
+	if cfg.tier == "thorough" && !expectSat && v.Answer == "unsat" && !(cfg.arming && strings.Contains(v.Name, "/sweep/")) {
+		// thorough tier: the portfolio's proof is cross-checked by the three solvers in their default configuration;
+		// a disagreement (one of them finds a model) withdraws the proof
+		type r struct {
+			ans, solver, text string
+			secs              float64
+		}
+		ch := make(chan r, 3)
+		for _, sn := range []string{"z3-new", "z3", "cvc5"} {
+			go func(sn string) {
+				a, t, el := runSolver(sn, v.File, cfg.slowT)
+				ch <- r{a, sn, t, el}
+			}(sn)
+		}
+		var all []string
+		for i := 0; i < 3; i++ {
+			x := <-ch
+			all = append(all, fmt.Sprintf("%s=%s(%.2fs)", x.solver, x.ans, x.secs))
+			if x.ans == "sat" {
+				record("sat", x.solver, x.secs, x.text)
+			}
+		}
+		v.Detail = "proved by " + v.Solver + "; cross-check: " + strings.Join(all, " ")
 	}
 	if expectSat {
 		if v.Answer == "unsat" {
